@@ -2,7 +2,7 @@
 EXTENDS H_Exec, TLC, Json, IOUtils
 TraceLog == ndJsonDeserialize(IOEnv.TRACE)
 VARIABLE l
-tvars == <<st, arg, tok, cst, starts, inYield, mg, l>>
+tvars == <<st, arg, tok, cst, starts, inYield, mg, inpool, expect, rin, l>>
 Ev == TraceLog[l]
 More == l <= Len(TraceLog)
 Consume == l' = l + 1
@@ -10,7 +10,7 @@ Is(e) == More /\ Ev.e = e /\ Consume
 SeqToSet(s) == {s[i] : i \in 1..Len(s)}
 TInit == HInit /\ l = 1
 TReset == Is("Reset") /\ st' = [u \in Units |-> "none"] /\ arg' = [u \in Units |-> 0] /\ tok' = [u \in Units |-> 0]
-          /\ cst' = [u \in Units |-> 0] /\ starts' = [u \in Units |-> 0] /\ inYield' = [u \in Units |-> FALSE] /\ mg' = [u \in Units |-> Mg0]
+          /\ cst' = [u \in Units |-> 0] /\ starts' = [u \in Units |-> 0] /\ inYield' = [u \in Units |-> FALSE] /\ mg' = [u \in Units |-> Mg0] /\ inpool' = [u \in Units |-> FALSE] /\ expect' = NoExpect /\ rin' = {}
 TNext ==
     \/ TReset
     \/ (More /\ UNCHANGED l /\ \E u \in Units : Honour(u))
@@ -25,7 +25,7 @@ TNext ==
     \/ (Is("Back") /\ Back(Ev.u, IF "pool" \in DOMAIN Ev THEN Ev.pool ELSE NoPool))
     \/ (Is("Suspend") /\ Suspend(Ev.u))
     \/ (Is("ResumeCall") /\ Resume(Ev.by, Ev.u))
-    \/ (Is("ResumeRet") /\ ByOK(Ev.by) /\ NoOp)
+    \/ (Is("ResumeRet") /\ ResumeRet(Ev.by, Ev.u))
     \/ (Is("Resumed") /\ Resumed(Ev.u))
     \/ (Is("Cancel") /\ Cancel(Ev.by, Ev.u))
     \/ (Is("CancelRet") /\ CancelRet(Ev.by, Ev.u))
@@ -39,6 +39,11 @@ TNext ==
     \/ (Is("MigRet") /\ MigRet(Ev.by, Ev.u, Ev.ret))
     \/ (Is("MigCb") /\ MigCb(Ev.u))
     \/ (Is("MigCount") /\ MigCount(Ev.u, Ev.n))
+    \/ (Is("Primary") /\ Primary(Ev.u))
+    \/ (Is("PrimaryDone") /\ PrimaryDone(Ev.u))
+    \/ (Is("Pop") /\ Pop(Ev.by, Ev.t))
+    \/ (Is("Prim") /\ Prim(Ev.u, Ev.op, Ev.t, Ev.arg))
+    \/ (Is("Run") /\ Run(Ev.u, Ev.of, Ev.ost, Ev.size, Ev.total))
     \/ (Is("XJoinCall") /\ NoOp)
     \/ (Is("XJoinRet") /\ Ev.term = 1 /\ AllTerminated(SeqToSet(Ev.us)) /\ NoOp)
     \* the blocked counter is never negative; after all streams were joined no
